@@ -143,14 +143,14 @@ pub fn c08(args: Args) {
     let hooks = Hooks { after_op: &after, at_end: &end, nontrivial: &nt, dyn_check: false, quiesce: true, verify_sig: Some("c08/server-verify") };
     // core: every object is created on one replica only; conflict: the same uuid may be created on
     // several replicas (conflict entries arise). Signatures carry the sub-profile.
-    let n = args.tier.pick(90, 4000);
+    let n = args.tier.pick(90, 800);
     run_histories(&mut run, &args, 8, n, &prof, &hooks);
     let prof_conf = Profile { pop: prof.pop.clone(), w: prof.w.clone(), home_creates: false, ..prof };
     let end_conf = |w: &World, quiesced: bool, s: &[SchemaSnap], acc: &mut Acc| -> Vec<Finding> {
         end(w, quiesced, s, acc).into_iter().map(|(sig, why)| (sig.replacen("c08/", "c08/same-uuid-creates/", 1), why)).collect()
     };
     let hooks_conf = Hooks { after_op: &after, at_end: &end_conf, nontrivial: &nt, dyn_check: false, quiesce: true, verify_sig: Some("c08/server-verify") };
-    run_histories(&mut run, &args, 1008, args.tier.pick(50, 2500), &prof_conf, &hooks_conf);
+    run_histories(&mut run, &args, 1008, args.tier.pick(50, 400), &prof_conf, &hooks_conf);
     // late joiner: a third replica joins by refresh from a random replica in the middle of the
     // history, while changes are still in flight between the other two (equal clocks)
     // few objects and many single-valued edits / clears, so that a write on one replica and a later
@@ -164,7 +164,7 @@ pub fn c08(args: Args) {
         end(w, quiesced, s, acc).into_iter().map(|(sig, why)| (sig.replacen("c08/", "c08/late-joiner/", 1), why)).collect()
     };
     let hooks_late = Hooks { after_op: &after, at_end: &end_late, nontrivial: &nt, dyn_check: false, quiesce: true, verify_sig: Some("c08/server-verify") };
-    run_histories(&mut run, &args, 2008, args.tier.pick(90, 3000), &prof_late, &hooks_late);
+    run_histories(&mut run, &args, 2008, args.tier.pick(90, 800), &prof_late, &hooks_late);
     c08_bounded(&mut run, &args);
     let lj = run.acc.get("late_joiner_refreshed") > 0;
     run.require(lj, "no late joiner was ever refreshed");
@@ -212,7 +212,10 @@ fn c08_bounded(run: &mut Run, args: &Args) {
         for len in 1..=3 {
             all(12, len, 0, &mut seqs);
         }
-        all(12, 4, 1, &mut seqs);
+        all(9, 4, 1, &mut seqs);
+        all(12, 4, 2, &mut seqs);
+        seqs.sort();
+        seqs.dedup();
     } else {
         for len in 1..=2 {
             all(9, len, 0, &mut seqs);
@@ -293,7 +296,7 @@ fn c08_bounded(run: &mut Run, args: &Args) {
         }
         acc
     });
-    run.extra("bounded_sequences", serde_json::json!({"executed": seqs.len(), "alphabet": NAMES[..if thorough { 12 } else { 9 }], "exhaustive_to_length": if thorough { 3 } else { 2 }, "plus_all_with_a_refresh_of_length": if thorough { 4 } else { 3 }, "plus_quick_length_4_with": "a refresh, a write on A, a write on B and an incremental replication"}));
+    run.extra("bounded_sequences", serde_json::json!({"executed": seqs.len(), "alphabet": NAMES[..if thorough { 12 } else { 9 }], "exhaustive_to_length": if thorough { 3 } else { 2 }, "plus_all_with_a_refresh_of_length": if thorough { "4 (first 9 symbols)" } else { "3" }, "plus_length_4_with": "a refresh, a write on A, a write on B and an incremental replication"}));
     let j = run.acc.get("bounded.judged_at_quiescence") > 0;
     run.require(j, "no bounded sequence reached quiescence");
 }
